@@ -39,6 +39,8 @@ func runC05(c *Ctx) {
 	ruleY6(c, "Y6")
 	r.Rule("Y7", "MarshalYAML has an arm for every node kind", 4)
 	ruleKindSwitch(c, "Y7", "CandidateNode.MarshalYAML")
+	ruleG11(c, "Y8")
+	ruleY9(c, "Y9")
 }
 
 // ruleY6: every yaml.Node that MarshalYAML hands to the YAML library was
@@ -439,6 +441,7 @@ func runC06(c *Ctx) {
 	ruleJ8(c, "J8")
 	ruleJ10(c, "J10")
 	ruleJ11(c, "J11")
+	ruleStaleSetting(c, "J12")
 	r.Rule("J9", "MarshalJSON has an arm for every node kind", 4)
 	ruleKindSwitch(c, "J9", "CandidateNode.MarshalJSON")
 	if fn := c.libFunc("parseInt64"); fn != nil {
@@ -659,6 +662,8 @@ func runC13(c *Ctx) {
 	ruleA7(c, "A7")
 	r.Rule("A8", "the JSON route has an arm for alias nodes (and every other kind)", 4)
 	ruleKindSwitch(c, "A8", "CandidateNode.MarshalJSON")
+	rulePF(c, "A9", 20)
+	ruleA10(c, "A10")
 }
 
 // ruleA6: explodeNode descends into every key and value: its recursive calls
